@@ -71,7 +71,11 @@ class Dense:
     def __init__(self, arr): self.arr = np.asarray(arr)
     def coq(self, car):
         return "EDense %s %s" % (nlist(self.arr.shape), car.lit(car.conv(self.arr)))
-    def impl(self, env, dtype): return ttgen.to_torch(self.arr, dtype)
+    def impl(self, env, dtype):
+        # one tensor object per evaluation: a Dense node used twice in an expression is the SAME tensor object
+        if getattr(self, "_eval_id", None) != EVAL_ID[0] or getattr(self, "_dtype", None) != dtype:
+            self._obj, self._eval_id, self._dtype = ttgen.to_torch(self.arr, dtype), EVAL_ID[0], dtype
+        return self._obj
     def dense(self, env, dtype): return ttgen.to_torch(self.arr, dtype)
     def desc(self): return {"dense": list(self.arr.shape)}
     def to_json(self): return {"dense": self.arr.tolist() if not np.iscomplexobj(self.arr) else [self.arr.real.tolist(), self.arr.imag.tolist()], "shape": list(self.arr.shape)}
@@ -389,6 +393,20 @@ DENSE_OPS.update({
     "OConj": lambda a, ia: a[0].conj().resolve_conj(),
     "OClone": lambda a, ia: a[0].clone(),
 })
+
+def _meshgrid_dense(a, ia):
+    torch, _ = _imp()
+    i = ia[0][0]
+    shp = [int(v.shape[0]) for v in a]
+    view = [1] * len(a); view[i] = shp[i]
+    return a[i].reshape(view).expand(shp).clone()
+def _rank1_dense(a, ia):
+    torch, _ = _imp()
+    out = a[0]
+    for v in a[1:]: out = torch.tensordot(out, v, dims=0)
+    return out
+IMPL_OPS.update({"ORank1": lambda a, ia: _imp()[1].rank1TT(list(a)), "OMeshgrid": lambda a, ia: _imp()[1].meshgrid(list(a))[ia[0][0]]})
+DENSE_OPS.update({"ORank1": _rank1_dense, "OMeshgrid": _meshgrid_dense})
 
 # ---------------------------------------------------------------- C08: indexing
 def _zopt(v):
